@@ -144,6 +144,9 @@ type G struct {
 	inDefer  bool
 	hasDefer bool
 	noCalls  bool
+	safe     bool // no operation that can panic (global initialisers run in the batch's package init)
+	loopNest int
+	selfCalls int
 	initFns  []string // bodies of init functions (plain/checked pairs rendered later)
 	inits    []E
 	decls    []E
@@ -303,6 +306,9 @@ func (g *G) genInt(d int) E {
 		}{{"+", 4, "ck_add"}, {"-", 4, "ck_sub"}, {"*", 5, "ck_mul"}, {"/", 5, "ck_div"}, {"%", 5, "ck_mod"},
 			{"+", 4, "ck_add"}, {"-", 4, "ck_sub"}, {"*", 5, "ck_mul"}, {"&", 5, ""}, {"|", 4, ""}, {"^", 4, ""}}
 		o := ops[g.r.Intn(len(ops))]
+		if g.safe && (o.op == "/" || o.op == "%") {
+			o = ops[0]
+		}
 		a := g.genInt(d - 1)
 		b := g.genInt(d - 1)
 		if isLit(a) && isLit(b) {
@@ -356,6 +362,9 @@ func (g *G) genInt(d int) E {
 		}
 		return g.genInt(d - 1)
 	case 4: // index
+		if g.safe {
+			return g.genInt(d - 1)
+		}
 		return g.genIndex(d)
 	case 5: // call
 		if e, ok := g.genCall(tInt, d); ok {
@@ -387,7 +396,7 @@ func (g *G) genInt(d int) E {
 	case 8: // map lookup of a key that is known to be present is rare; use the comma-ok helper instead
 		return g.genInt(d - 1)
 	case 9: // int(byte) conversions
-		if v := g.pickVar(KStr, false); v != nil && v.MinLen > 0 {
+		if v := g.pickVar(KStr, false); v != nil && v.MinLen > 0 && !g.safe {
 			g.f("expr:str-index")
 			i := g.r.Intn(v.MinLen)
 			return atom(fmt.Sprintf("int(%s[%d])", g.use(v).p, i))
@@ -520,7 +529,7 @@ func (g *G) genStr(d int) E {
 		}
 		return bin("+", 4, a, b, "")
 	case 1:
-		if v := g.pickVar(KStr, false); v != nil && v.MinLen > 0 {
+		if v := g.pickVar(KStr, false); v != nil && v.MinLen > 0 && !g.safe {
 			lo := g.r.Intn(v.MinLen + 1)
 			hi := lo + g.r.Intn(v.MinLen-lo+1)
 			g.f("expr:substr")
@@ -644,7 +653,7 @@ func (g *G) genPtr(t Ty, d int) E {
 
 // genCall: call of an already generated helper (or the current function, if it is recursive) with result type t.
 func (g *G) genCall(t Ty, d int) (E, bool) {
-	if g.noCalls {
+	if g.noCalls || g.safe || (g.loopNest > 0 && !g.r.Chance(1, 4)) {
 		return E{}, false
 	}
 	var cands []*Func
@@ -653,7 +662,7 @@ func (g *G) genCall(t Ty, d int) (E, bool) {
 			cands = append(cands, f)
 		}
 	}
-	if g.cur != nil && g.cur.Rec && len(g.cur.Rets) == 1 && g.cur.Rets[0].K == t.K {
+	if g.cur != nil && g.cur.Rec && len(g.cur.Rets) == 1 && g.cur.Rets[0].K == t.K && g.loopNest == 0 && g.selfCalls < 2 {
 		cands = append(cands, g.cur)
 	}
 	if len(cands) == 0 {
@@ -677,6 +686,7 @@ func (g *G) callOf(f *Func, d int) (E, bool) {
 	for _, p := range f.Params {
 		if f.Rec && p.Name == "d" {
 			if f == g.cur {
+				g.selfCalls++
 				ps, cs = append(ps, "d-1"), append(cs, "d-1")
 				g.f("expr:recursive-call")
 			} else {
@@ -1087,7 +1097,10 @@ func (g *G) genFor() E {
 		g.declare(&Var{Name: i, Ty: tInt, ReadOnly: true, Used: true})
 	}
 	g.loops = append(g.loops, loopCtx{label: lbl, usedLbl: used})
+	g.loopNest++
+	body.pc("", "ck_step()\n")
 	body.add(g.genBlock(g.r.Range(1, 4)))
+	g.loopNest--
 	g.loops = g.loops[:len(g.loops)-1]
 	body.both("}\n")
 	tail := g.pop()
@@ -1183,7 +1196,10 @@ func (g *G) genRange() E {
 		rangeVars = append(rangeVars, rv.Name)
 	}
 	g.loops = append(g.loops, loopCtx{label: lbl, usedLbl: used, mapRange: mapRange})
+	g.loopNest++
 	body := g.genBlock(g.r.Range(1, 3))
+	body.c = "ck_step()\n" + body.c
+	g.loopNest--
 	g.loops = g.loops[:len(g.loops)-1]
 	tail := g.pop()
 	if *used {
@@ -1444,7 +1460,7 @@ func (g *G) genCallStmt() E {
 	for _, f := range g.funcs {
 		cands = append(cands, f)
 	}
-	if len(cands) == 0 {
+	if len(cands) == 0 || (g.loopNest > 0 && !g.r.Chance(1, 4)) {
 		return g.genStmtSimple()
 	}
 	f := cands[g.r.Intn(len(cands))]
